@@ -53,7 +53,9 @@ T_L == { G("R", <<QI("q", 0), Let("a")>>), G("X", <<Qb("q", Let("a"))>>), G("X",
 O_L == { OSeq, OPar, OLoop(Let("a"), FALSE), OSub(Let("a")) }
 
 \* ---------------------------------------------------------------- C09: subcircuit blocks everywhere legal
-M_S == << MD("m1", <<"x">>, {"seq"}, { G("X", <<Par("x")>>) }, { OSub(I2), OLoop(I2, FALSE) }, 3) >>
+\* (m0 is a plain macro defined BEFORE m1; m1 holds the subcircuit blocks and may call m0: definitions must keep their order)
+M_S == << MD("m0", <<"x">>, {"seq"}, { G("X", <<Par("x")>>) }, {}, 1),
+          MD("m1", <<"x">>, {"seq"}, { G("X", <<Par("x")>>), G("m0", <<Par("x")>>) }, { OSub(I2), OLoop(I2, FALSE) }, 3) >>
 T_S == { G("X", <<QI("q", 0)>>), G("m1", <<QI("q", 1)>>), G("prepare_all", <<>>), G("measure_all", <<>>) }
 O_S == { OSeq, OPar, OLoop(I2, FALSE), OSub(I1), OSub(Let("b")) }
 
@@ -104,10 +106,12 @@ M_B == << MD("f", <<"a">>, {"seq"}, { G("g", <<Par("a")>>), G("g", <<Qb("q", Par
                                        G("g", <<QI("q", 0)>>) }, {}, 2),
           MD("h", <<"q">>, {"seq"}, { G("g", <<Par("q")>>), G("g", <<QbP("q", I0)>>), G("g", <<QbP("q", Let("a"))>>),
                                        G("g", <<Let("a")>>), G("g", <<QAl("s")>>) }, {}, 2),
-          MD("k", <<"r", "a">>, {"seq"}, { G("g", <<QbP("r", I0)>>), G("g", <<QbP("r", Par("a"))>>), G("g", <<Par("a")>>) }, {}, 1) >>
-M_BQ == << [M_B[1] EXCEPT !.max = 1], [M_B[2] EXCEPT !.max = 1], M_B[3] >>
+          MD("k", <<"r", "a">>, {"seq"}, { G("g", <<QbP("r", I0)>>), G("g", <<QbP("r", Par("a"))>>), G("g", <<Par("a")>>) }, {}, 1),
+          \* n calls f, whose parameter has the SAME name a, with another value, and goes on using its own a
+          MD("n", <<"a">>, {"seq"}, { G("f", <<I2>>), G("g", <<Par("a")>>) }, {}, 2) >>
+M_BQ == << [M_B[1] EXCEPT !.max = 1], [M_B[2] EXCEPT !.max = 1], M_B[3], M_B[4] >>
 T_B == { G("g", <<Let("a")>>), G("g", <<Qb("q", Let("a"))>>), G("g", <<QI("r", 0)>>), G("g", <<QI("q", 0)>>),
-         G("f", <<I2>>), G("h", <<RegA("r")>>), G("k", <<RegA("q"), I2>>) }
+         G("f", <<I2>>), G("h", <<RegA("r")>>), G("k", <<RegA("q"), I2>>), G("n", <<I3>>) }
 O_B == { OLoop(Let("a"), FALSE) }
 
 \* ---------------------------------------------------------------- execution: structure (C12, C08)
